@@ -20,7 +20,7 @@ import ast
 from typing import Any, Dict, List, Optional, Set, Tuple
 
 from ..cfg import cfg_of
-from ..flow import Sym, fpaths, attr_effects
+from ..flow import Sym, fpaths, attr_effects, allfacts
 from ..model import FuncInfo, attr_chain, norm, walk_no_nested
 from ..report import Checker
 from .common import must_attempt, shutdown_hook_check, raise_capable
@@ -54,7 +54,7 @@ def run(ch: Checker) -> None:
     ch.check(cex is None and n > 0, 'C10.1', cl, 'del self.works[work_id]', 'the work is forgotten on all %d path(s), also when shutdown() raises' % n,
              'a path of _cleanup (%s) leaves the work in self.works: it is polled and cleaned again, and never released' % (cex[0] if cex else ''), witness=cex[1] if cex else None)
     n, cex = must_attempt(gcl, lambda a: _has_call(a, ('os.close',)),
-                          lambda p: dict(p.facts()).get('self.work_queue_fileno() is None') is False,
+                          lambda p: allfacts(p).get('self.work_queue_fileno() is None') is False,
                           exc_source=lambda a: any(isinstance(c, ast.Call) and (isinstance(c.func, ast.Attribute) and c.func.attr == 'shutdown') for c in walk_no_nested(a)))
     ch.check(cex is None and n > 0, 'C10.1', cl, 'os.close(work_id)', 'the received handle is closed on all %d path(s) with a work-queue fd' % n,
              'remote executor: the duplicated descriptor received for the work is not closed on a path of _cleanup (%s)' % (cex[0] if cex else 'no such path'), witness=cex[1] if cex else None)
@@ -75,7 +75,7 @@ def run(ch: Checker) -> None:
     run_ = prog.own_method('HttpProtocolHandler', 'run')
     gr = cfg_of(run_, prog)
     for tgt, nm in ((('self.shutdown',), 'shutdown()'), (('self.selector.close',), 'selector.close()')):
-        n, cex = must_attempt(gr, lambda a, t=tgt: _has_call(a, t), (lambda p: True) if nm == 'shutdown()' else (lambda p: dict(p.facts()).get('self.selector') is not False))
+        n, cex = must_attempt(gr, lambda a, t=tgt: _has_call(a, t), (lambda p: True) if nm == 'shutdown()' else (lambda p: allfacts(p).get('self.selector') is not False))
         ch.check(cex is None and n > 0, 'C10.1', run_, nm, '%s attempted on all %d path(s) of the threaded driver' % (nm, n),
                  'threaded mode: %s is skipped on a path (%s)' % (nm, cex[0] if cex else ''), witness=cex[1] if cex else None)
 
@@ -106,7 +106,7 @@ def run(ch: Checker) -> None:
     n_u = 0
     for p in fpaths(gcl):
         sym = Sym(p)
-        fd = dict(p.facts())
+        fd = allfacts(p)
         sd_steps = [i for i, nd, lab in p.executed() if nd.kind == 'stmt' and any(isinstance(c, ast.Call) and isinstance(c.func, ast.Attribute) and c.func.attr == 'shutdown' for c in walk_no_nested(nd.ast))]  # type: ignore[arg-type]
         if not sd_steps:
             continue
@@ -166,8 +166,8 @@ def run(ch: Checker) -> None:
     go = cfg_of(occ, prog)
     mentions_up = lambda a: any(attr_chain(n_) is not None and (attr_chain(n_) or '').startswith('self.upstream') for n_ in ast.walk(a) if isinstance(n_, ast.Attribute))
     n, cex = must_attempt(go, lambda a: _has_call(a, ('self.upstream.close', 'self.upstream_conn_pool.release')),
-                          lambda p: dict(p.facts()).get('self.upstream is None') is False and p.exit_kind == 'return' or
-                          (dict(p.facts()).get('self.upstream is None') is False and any(lab == 'exc' for _, lab in p.steps)),
+                          lambda p: allfacts(p).get('self.upstream is None') is False and p.exit_kind == 'return' or
+                          (allfacts(p).get('self.upstream is None') is False and any(lab == 'exc' for _, lab in p.steps)),
                           exc_source=mentions_up)
     ch.check(cex is None and n > 0, 'C10.4', occ, 'upstream release', 'upstream.close() / pool release attempted on all %d path(s) with an upstream (socket-level shutdown errors included)' % n,
              'the upstream connection is not closed on a path of on_client_connection_close (%s): e.g. after the origin reset the connection, shutdown(SHUT_WR) raises and close() is skipped'
@@ -177,7 +177,7 @@ def run(ch: Checker) -> None:
     okr = True
     nr = 0
     for p in fpaths(gro):
-        f = dict(p.facts())
+        f = allfacts(p)
         if f.get('self.upstream') is True and f.get('self.upstream.closed') is False:
             nr += 1
             if not any(_has_call(st, ('self.upstream.close',)) for i, st in p.stmts()):
@@ -199,7 +199,7 @@ def run(ch: Checker) -> None:
         closes = [i for i, st in p.stmts() if _has_call(st, ('self.connection.close',))]
         if closes:
             n5 += 1
-            f = dict(p.facts(closes[0]))
+            f = allfacts(p, closes[0])
             sets = [i for i, st in p.stmts() for chn, kind, nd in attr_effects(st) if chn == 'self.closed' and norm(nd.value) == 'True']  # type: ignore[attr-defined]
             if f.get('self.closed') is not False or not sets:
                 ok5 = False
@@ -231,7 +231,7 @@ def _store_guarded(prog: Any, fn: FuncInfo, node: ast.AST) -> Optional[str]:
     for p in fpaths(g):
         for idx, st in p.stmts():
             if st is node:
-                f = dict(p.facts(idx))
+                f = allfacts(p, idx)
                 if f.get('self.upstream is None') is True or f.get('self.upstream') is False:
                     verdicts.append('under `self.upstream is None`')
                 elif any(_has_call(s2, ('self.upstream.close',)) for j, s2 in p.stmts() if j < idx):
